@@ -58,8 +58,11 @@ def sig_matches(match, sig):
     return all(_match_val(mv, sig.get(mk)) for mk, mv in match.items())
 
 
-def spawn(args, out, timeout, env):
-    return subprocess.Popen([PY, "-m", "vf.worker"] + args + ["--out", out], cwd=VERIF, env=env, stdout=subprocess.PIPE, stderr=subprocess.STDOUT), time.time() + timeout
+def spawn(args, out, timeout, env, py=None, extra_env=None):
+    e = dict(env)
+    if extra_env:
+        e.update(extra_env)
+    return subprocess.Popen([py or PY, "-m", "vf.worker"] + args + ["--out", out], cwd=VERIF, env=e, stdout=subprocess.PIPE, stderr=subprocess.STDOUT), time.time() + timeout
 
 
 def run_workers(jobs, env, timeout, maxpar=16):
@@ -69,8 +72,9 @@ def run_workers(jobs, env, timeout, maxpar=16):
     results = {}
     while pending or running:
         while pending and len(running) < maxpar:
-            name, argv, out = pending.pop(0)
-            p, dl = spawn(argv, out, timeout, env)
+            job = pending.pop(0)
+            name, argv, out = job[:3]
+            p, dl = spawn(argv, out, timeout, env, *(job[3:5] if len(job) >= 5 else ()))
             running[name] = (p, dl, out)
         time.sleep(0.05)
         for name in list(running):
@@ -153,6 +157,11 @@ def main(argv=None):
         n = a.shards or eng.nshards(pid, tier)
         timeout = eng.shard_timeout(pid, tier) if hasattr(eng, "shard_timeout") else (600 if tier == "quick" else 3000)
         jobs = [("s%d" % i, [pid, "--tier", tier, "--seed", str(a.seed), "--shard", str(i), "--nshards", str(n)], os.path.join(work, "s%d.json" % i)) for i in range(n)]
+        secondary = []
+        if hasattr(eng, "secondary_jobs"):
+            for (nm, py, xenv, argv) in eng.secondary_jobs(pid, tier, a.seed):
+                jobs.append(("sec:" + nm, argv, os.path.join(work, "sec_%s.json" % nm), py, xenv))
+                secondary.append(nm)
         findings = [f for f in load_findings() if pid in f["properties"]]
         if findings:
             jobs.insert(0, ("witness", [pid, "--witness"], os.path.join(work, "witness.json")))
@@ -160,12 +169,19 @@ def main(argv=None):
 
         agg = {"evaluations": 0, "judged": {}, "violations": [], "not_judged": {}, "counters": {}, "sets": {}, "samples": [], "info": {}}
         failed = []
+        skipped_secondary = []
         for name, r in results.items():
             if name == "witness":
                 continue
             if "_failed" in r:
+                if name.startswith("sec:"):
+                    # the secondary configuration is recorded as skipped, never as held
+                    skipped_secondary.append((name, r["_failed"], r.get("_log", "")[-400:]))
+                    continue
                 failed.append((name, r["_failed"], r.get("_log", "")[-1500:]))
                 continue
+            if name.startswith("sec:"):
+                agg["info"]["secondary:" + name[4:]] = {"evaluations": r.get("evaluations", 0), "judged": sum(r.get("judged", {}).values()), "violations": len(r.get("violations", [])), "info": r.get("info", {})}
             merge(agg, r)
         wit = results.get("witness", {})
         if "_failed" in wit:
@@ -254,6 +270,7 @@ def main(argv=None):
             "info": agg["info"],
             "shards": len(jobs),
             "failed_workers": [f[:2] for f in failed],
+            "secondary_skipped": [list(x) for x in skipped_secondary],
             "known_findings_observed": {k: len(v) for k, v in known_hit.items()},
             "unknown_violation_signatures": len(unknown),
             "inconclusive_reasons": inconclusive,
